@@ -27,6 +27,15 @@ Extracted (every other shape fails closed):
   * CustomMode.create_params + convert_custom_data: (`list(all_steps.values())`, `len(params) == 1`) (ByLength) |
     (`[step.values for step in self.enabled_steps]`, `params == "_"`) (ByPlaceholder); column offset `idx += 1` /
     `idx += len(params)`
+
+ schedules (fail closed; the rows are constants `true` when the shapes are the known ones)
+  * run_pipelines_with_dask: file index `np.arange(size).reshape(shape)`, `.chunk(1)` on the parameter array and on the
+    index array, `apply_ufunc(.., vectorize=True, input_core_dims=[[], []])`, index handed on as an argument down to
+    `run_pipeline(output_filename_suffix=...)`                                                -> src_file_index_row_major
+  * ArchipelagoDataTree._build: `executor.map(create_island, seeds)` / `map(create_island, seeds)`, islands pushed in
+    the order yielded                                                                         -> src_islands_by_submission
+  * DaskBFE.__call__: `dvs_1d.reshape((-1, nx))`, chunks `(chunk_size, nx)`, chunk_size `max(1, nf // 10)` or the
+    configured one, `fitness_func(dvs_2d).ravel()`                                            -> src_bfe_row_major
 """
 from __future__ import annotations
 
@@ -38,6 +47,8 @@ from .common import HEADER, body_no_doc, fail, find_func, parse
 DASK = "pyxel/observation/observation_dask.py"
 OBS = "pyxel/observation/observation.py"
 MISC = "pyxel/observation/misc.py"
+ARCHI = "pyxel/calibration/archipelago_datatree.py"
+UDEF = "pyxel/calibration/user_defined.py"
 
 
 def u(node) -> str:
@@ -364,6 +375,88 @@ def custom_row(tree) -> str:
     fail(ifs[0].test, f"unknown scalar test / argument combination ({passed!r}) in convert_custom_data")
 
 
+# ------------------------------------------------------------------------------------------ schedules
+
+
+def file_index_row(tree) -> bool:
+    """one task per cell; file index = row-major position; the index reaches run_pipeline unchanged"""
+    fn = find_func(tree, "run_pipelines_with_dask")
+    cands = [v for t, v, _ in assigns(fn) if isinstance(t, ast.Name) and t.id == "output_filename_indices"
+             and not (isinstance(v, ast.Constant) and v.value is None)]
+    if len(cands) != 1:
+        fail(fn, "expected one non-None assignment to output_filename_indices in")
+    txt = u(cands[0])
+    da = [c for c in ast.walk(cands[0]) if isinstance(c, ast.Call) and u(c.func).endswith("DataArray")]
+    if (len(da) != 1 or not da[0].args
+            or u(da[0].args[0]) != "np.arange(params_dataarray.size).reshape(params_dataarray.shape)"
+            or u(kw(da[0], "dims")) != "params_dataarray.dims"):
+        fail(cands[0], "file index must be DataArray(np.arange(size).reshape(shape), dims=params_dataarray.dims, ..)")
+    if not txt.endswith(".chunk(1)") or ".T" in txt.replace(".chunk", "") or "transpose" in txt:
+        fail(cands[0], "file index must be chunked one cell per task and not transposed")
+    uf = calls(fn, lambda f: f.endswith("apply_ufunc"))[0]
+    if [u(a) for a in uf.args[1:]] != ["params_dataarray.chunk(1)", "output_filename_indices"]:
+        fail(uf, "apply_ufunc must map over params_dataarray.chunk(1) and output_filename_indices")
+    if u(kw(uf, "vectorize")) != "True" or u(kw(uf, "input_core_dims")) != "[[], []]":
+        fail(uf, "apply_ufunc must be vectorized over scalar cells")
+    wr = find_func(tree, "_run_pipelines_tuple_to_array")
+    ps = params_of(wr)
+    if ps[:2] != ["params_tuple", "output_filename_suffixes"]:
+        fail(wr, "_run_pipelines_tuple_to_array(params_tuple, output_filename_suffixes, ..)")
+    inner = calls(wr, lambda f: f == "_run_pipelines_array_to_datatree")[0]
+    if u(kw(inner, "output_filename_suffix")) != "output_filename_suffixes":
+        fail(inner, "the file index must be handed to _run_pipelines_array_to_datatree")
+    one = find_func(tree, "_run_pipelines_array_to_datatree")
+    rp = calls(one, lambda f: f == "run_pipeline")[0]
+    if u(kw(rp, "output_filename_suffix")) != "output_filename_suffix" or u(kw(rp, "outputs")) != "outputs":
+        fail(rp, "the file index must be handed to run_pipeline as an argument of the call")
+    return True
+
+
+def islands_row(tree) -> bool:
+    fn = find_func(tree, "_build", "ArchipelagoDataTree")
+    top = [n for n in fn.body if isinstance(n, ast.If) and u(n.test) == "self.parallel"]
+    if len(top) != 1 or not top[0].orelse:
+        fail(fn, "_build must have one `if self.parallel: .. else: ..`")
+
+    def branch(stmts, mapper):
+        its = [(t, v) for st in stmts for t, v, _ in assigns(st) if isinstance(t, ast.Name) and t.id == "it"]
+        if len(its) != 1 or u(its[0][1]) != f"{mapper}(create_island, seeds)":
+            fail(stmts[0], f"islands must be created with it = {mapper}(create_island, seeds)")
+        loops = [n for st in stmts for n in ast.walk(st) if isinstance(n, ast.For)]
+        if len(loops) != 1:
+            fail(stmts[0], "one loop over the created islands expected")
+        lp = loops[0]
+        it = lp.iter
+        ok_iter = u(it) == "it" or (isinstance(it, ast.Call) and u(it.func) == "tqdm" and it.args and u(it.args[0]) == "it")
+        if not ok_iter or len(lp.body) != 1 or u(lp.body[0]) != f"self._pygmo_archi.push_back({u(lp.target)})":
+            fail(lp, "islands must be pushed in the order the mapper yields them")
+
+    withs = [n for n in top[0].body if isinstance(n, ast.With)]
+    if len(withs) != 1 or "ThreadPoolExecutor" not in u(withs[0].items[0].context_expr) \
+            or u(withs[0].items[0].optional_vars) != "executor":
+        fail(top[0], "parallel branch must use `with ThreadPoolExecutor(..) as executor`")
+    branch(withs[0].body, "executor.map")
+    branch(top[0].orelse, "map")
+    return True
+
+
+def bfe_row(tree) -> bool:
+    fn = find_func(tree, "__call__", "DaskBFE")
+    fa = calls(fn, lambda f: f.endswith("from_array"))
+    if (len(fa) != 1 or not fa[0].args or u(fa[0].args[0]) != "dvs_1d.reshape((-1, ndims_dvs))"
+            or u(kw(fa[0], "chunks")) != "(chunk_size, ndims_dvs)"):
+        fail(fn, "DaskBFE must cut dvs_1d.reshape((-1, ndims_dvs)) into chunks (chunk_size, ndims_dvs)")
+    cs = [u(v) for t, v, _ in assigns(fn) if isinstance(t, ast.Name) and t.id == "chunk_size"]
+    if sorted(cs) != sorted(["max(1, num_fitness // 10)", "self._chunk_size"]):
+        fail(fn, "DaskBFE chunk size must be max(1, num_fitness // 10) or the configured one")
+    if u(the_assign(fn, "fitness_1d")) != "fitness_2d.ravel()" or u(the_assign(fn, "fitness_2d")) != "fitness_func(dvs_2d)":
+        fail(fn, "DaskBFE must return fitness_func(dvs_2d).ravel()")
+    rets = [n for n in ast.walk(fn) if isinstance(n, ast.Return)]
+    if len(rets) != 1 or u(rets[0].value) != "fitness_1d":
+        fail(fn, "DaskBFE must return fitness_1d")
+    return True
+
+
 TEMPLATE = """From Coq Require Import List Bool.
 From PyxelV Require Import Model.Parallel.
 Import ListNotations.
@@ -373,13 +466,24 @@ Import ListNotations.
    Observation._get_parameter_types + run_pipelines / the three create_params (tuple order) *)
 Definition src_cfg : dask_cfg :=
   mkCfg {seq} {prod} {custom} {bind} {same} {names} {types} {tuples}.
+
+(* run_pipelines_with_dask: file index = np.arange(size).reshape(shape) (row-major), one cell per task (.chunk(1) on
+   both arrays), handed unchanged through _run_pipelines_tuple_to_array / _run_pipelines_array_to_datatree to
+   run_pipeline as an ARGUMENT of the call *)
+Definition src_file_index_row_major : bool := {fidx}.
+(* ArchipelagoDataTree._build: it = executor.map(create_island, seeds) / map(create_island, seeds); islands pushed in
+   the order the mapper yields them (= submission order) *)
+Definition src_islands_by_submission : bool := {isl}.
+(* DaskBFE.__call__: dvs_1d.reshape((-1, nx)) cut into chunks of chunk_size >= 1 rows, result ravel()ed *)
+Definition src_bfe_row_major : bool := {bfe}.
 """
 
 
-def render(seq, prod, custom, bind="BindPosition", same=True, names=True, types=True, tuples=True) -> str:
+def render(seq, prod, custom, bind="BindPosition", same=True, names=True, types=True, tuples=True, fidx=True,
+           isl=True, bfe=True) -> str:
     b = lambda x: "true" if x else "false"  # noqa: E731
     return HEADER + TEMPLATE.format(seq=seq, prod=prod, custom=custom, bind=bind, same=b(same), names=b(names),
-                                    types=b(types), tuples=b(tuples))
+                                    types=b(types), tuples=b(tuples), fidx=b(fidx), isl=b(isl), bfe=b(bfe))
 
 
 def rows(repo: Path) -> dict:
@@ -391,7 +495,11 @@ def rows(repo: Path) -> dict:
     prod = product_row(misc)
     seq = sequential_row(misc, obs)
     custom = custom_row(misc)
-    return dict(seq=seq, prod=prod, custom=custom, bind=bind, same=same, names=names, types=types, tuples=True)
+    fidx = file_index_row(dask)
+    isl = islands_row(parse(repo, ARCHI))
+    bfe = bfe_row(parse(repo, UDEF))
+    return dict(seq=seq, prod=prod, custom=custom, bind=bind, same=same, names=names, types=types, tuples=True,
+                fidx=fidx, isl=isl, bfe=bfe)
 
 
 def translate(repo: Path) -> str:
